@@ -72,7 +72,12 @@ func (ex *Exec) instr(s *State, in ssa.Instruction) {
 		x := ex.val(s, t.X)
 		switch t.Op {
 		case token.MUL:
-			s.setReg(t, ex.load(s, x.(*PtrV), ex.site(in)))
+			lv := ex.load(s, x.(*PtrV), ex.site(in))
+			if lv == nil && !s.dead {
+				// only reachable under an infeasible guard (e.g. element of an empty array)
+				lv = ex.zero(t.Type())
+			}
+			s.setReg(t, lv)
 		case token.NOT:
 			s.setReg(t, tb.Not(x.(*Term)))
 		case token.SUB:
@@ -122,7 +127,11 @@ func (ex *Exec) instr(s *State, in ssa.Instruction) {
 			if s.dead {
 				return
 			}
-			s.setReg(t, ex.sliceLoad(s, a, i))
+			v := ex.sliceLoad(s, a, i)
+			if v == nil {
+				v = tb.BV(0, 8)
+			}
+			s.setReg(t, v)
 		default:
 			unsup("index of %T", x)
 		}
@@ -158,7 +167,11 @@ func (ex *Exec) instr(s *State, in ssa.Instruction) {
 			if a.opaque {
 				s.setReg(t, tb.Fresh("strbyte", BVSort(8)))
 			} else {
-				s.setReg(t, ex.sliceLoad(s, a, i))
+				v := ex.sliceLoad(s, a, i)
+				if v == nil {
+					v = tb.BV(0, 8)
+				}
+				s.setReg(t, v)
 			}
 		case *MapV:
 			k := ex.val(s, t.Index)
